@@ -32,6 +32,9 @@ Optional functions (implement those in scope for the environment, see SCOPE belo
   dense_sparse(P, trace, ret, ret_twin, twin_ended_at) -> problems   replaces the generic "same return under the other
                                                reward function" clause where the two functions are documented as
                                                different objectives (C08)
+  qualify(P, clause, ev) -> str                precondition of the mechanism behind a problem of this clause (e.g.
+                                               "max_degree<=4"); becomes the violation's qualifier, the key under which
+                                               a known finding is listed
   policies(P) -> {name: fn(ctx) -> action}     extra workload policies (complete / collide / frontier ...)
 """
 from __future__ import annotations
